@@ -71,15 +71,15 @@ def main():
     res["confirmed"] = bool(ok)
     # run the checks against /repo with the change applied
     caught = {}
-    if ok:
+    if ok and not os.environ.get('NOCHECKS'):
         for chk in checks:
             p = subprocess.run(f"timeout 1500 /verif/tools/trymut.sh {patch} {chk}", shell=True, capture_output=True, text=True)
             o = p.stdout + p.stderr
             sigs = re.findall(r"signature: (.*)", o)
             rcm = re.search(r"== %s rc=(\d+)" % chk, o)
             caught[chk] = {"rc": int(rcm.group(1)) if rcm else None, "signatures": sigs[:4]}
-        st = subprocess.run("git -C /repo status --short", shell=True, capture_output=True, text=True).stdout
-        assert st.strip() == "", "repo dirty after trymut: " + st
+    st = subprocess.run("git -C /repo status --short", shell=True, capture_output=True, text=True).stdout
+    assert st.strip() == "", "repo dirty after trymut: " + st
     res["checks"] = caught
     # store
     if ok:
